@@ -19,7 +19,7 @@ EXPLANATION = ("solver-checked lemmas plus bounded end-to-end runs.  (walk) the 
 STUBS = [stubs.STUB_NOTE, "user-defined filter = uninterpreted predicate (one z3 Bool per k-mer)"]
 ASSUMPTIONS = ["composition of the lemmas for all k and all message lengths is a written argument; only the bounded end-to-end runs are decided as a whole",
                "end-to-end configurations are window-decidable ones (run limit < window); the constructor clause is checked separately (known finding C02-KF1)"]
-BUDGET_S = {"quick": 1500, "thorough": 10000}
+BUDGET_S = {"quick": 1500, "thorough": 1500}
 
 
 def make_loader(cfg):
